@@ -573,18 +573,16 @@ impl Expansion<'_> {
 
         let mix_shared_attr_bounds = match &self.attrs.common.fmt {
             Some(attr) => {
-                bounds.extend(
-                    attr.bounded_types(self.fields)
-                        .filter_map(|(ty, trait_name)| {
-                            if !ty.contains_generics(self.type_params) {
-                                return None;
-                            }
-                            let trait_ident = format_ident!("{trait_name}");
+                bounds.extend(attr.bounded_types(self.fields).filter_map(
+                    |(ty, trait_name)| {
+                        if !ty.contains_generics(self.type_params) {
+                            return None;
+                        }
+                        let trait_ident = format_ident!("{trait_name}");
 
-                            Some(parse_quote! { #ty: derive_more::core::fmt::#trait_ident })
-                        })
-                        .chain(self.attrs.common.bounds.0.clone()),
-                );
+                        Some(parse_quote! { #ty: derive_more::core::fmt::#trait_ident })
+                    },
+                ));
                 shared_attr_is_wrapping
             }
             None => {
@@ -601,6 +599,8 @@ impl Expansion<'_> {
                 has_shared_attr
             }
         };
+        // User-specified bounds apply whether a format is specified along with them or not.
+        bounds.extend(self.attrs.common.bounds.0.clone());
         if mix_shared_attr_bounds {
             bounds.extend(
                 self.shared_attr
